@@ -272,14 +272,17 @@ func (r *ClientPeerRef) Send(ctx context.Context, msg []byte) (_ *signaling_rpc.
 					txed = true
 					tkr.out = sessMsg
 					broadcast()
-				} else if tkr.out.Seqno == seqno {
-					// Our message is still queued after the session was re-opened:
-					// the main routine transmits it again under the new session.
-					txed = true
+					waitCh = getWaitCh()
+					return
 				}
-
-				waitCh = getWaitCh()
-				return
+				if tkr.out.Seqno != seqno {
+					waitCh = getWaitCh()
+					return
+				}
+				// Our message is still queued after the session was re-opened:
+				// the main routine transmits it again under the new session.
+				// It may already have been acked: fall through to the check below.
+				txed = true
 			}
 
 			// We sent the message to tkr.out and tkr.out is our message.
